@@ -32,6 +32,10 @@ pub struct Cfg {
     /// out of 100: share of multi-module programs in which a leaf module gets a twin (same base name and token
     /// shape in another directory) and both are used from main
     pub twin_pct: u32,
+    /// out of 100: share of multi-module programs in which a qualified import is preceded by an import of a
+    /// shadow module under the same qualifier (the later import wins); only for checks that do not rename or
+    /// move import statements
+    pub shadow_pct: u32,
 }
 
 impl Cfg {
@@ -66,6 +70,7 @@ impl Default for Cfg {
             min_params: 1,
             spread_params: false,
             twin_pct: 15,
+            shadow_pct: 0,
         }
     }
 }
@@ -1349,6 +1354,9 @@ pub fn generate(rng: &mut Rng, cfg: &Cfg) -> Program {
     let mut p = Gen::new(rng, cfg.clone()).program();
     if cfg.twin_pct > 0 && p.modules.len() > 1 && rng.chance(cfg.twin_pct, 100) {
         super::twin::add_twin(&mut p, rng);
+    }
+    if cfg.shadow_pct > 0 && p.modules.len() > 1 && rng.chance(cfg.shadow_pct, 100) {
+        super::twin::add_shadow_import(&mut p, rng);
     }
     p
 }
